@@ -950,6 +950,25 @@ def A18_cli_wiring(repo, clause):
                             and x.id == fcall[0].args[0].id:
                         reassigned = True
         obs.append(Ob("A18", clause, fn, st, not reassigned, "find-only branch does not reassign the structure (it is written unmodified)", slot="find-only"))
+    # the loaded patterns and structure reach the library unmodified (no in-place edits in between)
+    eff = repo.effects
+    pat_vars = set()
+    for c_ in calls_in(fn):
+        if call_name(c_) in ("replace_pattern_in_structure", "find_pattern_in_structure"):
+            for a_ in c_.args[1:3]:
+                if isinstance(a_, ast.Name):
+                    pat_vars.add(a_.id)
+    touched = []
+    for ap in eff.apps.get(fn, []):
+        tgt = ap.target
+        while isinstance(tgt, (ast.Attribute, ast.Subscript)):
+            tgt = tgt.value
+        if isinstance(tgt, ast.Name) and tgt.id in pat_vars:
+            touched.append(ap)
+    obs.append(Ob("A18", clause, fn, touched[0].node if touched else fn.node, not touched,
+                  "the find/replace patterns are handed to the library exactly as loaded%s" % (
+                      "" if not touched else " -- the CLI modifies `%s` first (%s): the API user's result differs" % (ast.unparse(touched[0].target), touched[0].how)),
+                  construct=None if touched else "Atoms.load(find_path) -> replace_pattern_in_structure(...)", slot="patterns-unmodified", positive=True))
     # suffix tables
     load = repo.fn("Atoms.load")
     save = repo.fn("Atoms.save")
